@@ -94,6 +94,12 @@ class Oracle(Hooks):
         gk = group_kind(w)
         rec = [e for e in w.events if e["op"] == "recover" and e["n"] == 0 and e["out"] != "skip"]
         fin = [e for e in w.events if e["op"] in ("deliver", "craft") and e["n"] == 0 and e["out"] != "skip"]
+        for e in w.events:
+            if e["op"] == "persist" and e["out"].startswith("exc:") and w.nodes[e["n"]].out is not None \
+                    and w.nodes[e["n"]].impl == "real":
+                self.flag(w, "serialize-raised", "serialize() raised %s on a started instance instead of emitting the "
+                          "released format" % e["out"][4:], mode=mode, cls=w.nodes[e["n"]].cls, exc=e["out"][4:])
+                return
         if mode == "golden":
             gb = n.golden
             if not rec or rec[0]["out"] != "inst":
